@@ -208,6 +208,11 @@ Theorem zero_timeout_async_iterator :
 Proof. exact aiter_zero. Qed.
 Print Assumptions zero_timeout_async_iterator.
 
+Theorem async_iterator_none_never_times_out :
+  forall arr : list arrival, Forall (fun st => as_out st <> E_TIMEOUT) (aiter_run None arr).
+Proof. exact aiter_none_never_times_out. Qed.
+Print Assumptions async_iterator_none_never_times_out.
+
 (* zero_timeout_never_waits on the send side, every path (sendmsg loop, join + send_all) and the client (lock). *)
 Theorem zero_timeout_never_waits_send :
   forall (drop_empty has_sendmsg : bool) (iov : Z) (F fuel : nat) (ri : tmo) (chunks : list bytes) (l : lockans)
